@@ -29,6 +29,11 @@ def plan(tier, seed):
                 for ncols in sorted(set([n, max(1, n - 1)])):
                     qs.append(q_growth('C12', n, sups, lp, up, pa, pc, ncols))
     qs += [q for q in [q_misc('C12', 3, 2, 2, p) for p in range(16)] + [q_misc('C12', 3, 3, 3, 0x1ff), q_misc('C12', 3, 2, 3, 0x2d)]]
+    # the triangular solves the estimator is built on, on factors with several wide supernodes (same queries as C19)
+    from props.C19 import q_trsv
+    for (n, sups) in [(4, (2, 2)), (5, (2, 2, 1)), (5, (2, 3))]:
+        for var in (range(4) if n == 4 else (0, 2)):
+            qs.append(q_trsv('C12', n, sups, (1 << (n * n)) - 1, (1 << (n * n)) - 1, var, vendor=(var % 2 == 0)))
     qs += c07plan(tier, seed, 'C12')[:6]   # info = n+1 exactly when rcond < eps; norm character per transpose sense
     return qs
 
